@@ -24,7 +24,7 @@ ASSUMPTIONS = ['launch power per channel <= +10 dBm (the property\'s own bound)'
                'in the operation fuzz the injected NLI is <= 0.5 x channel power',
                'floating point: |s+a+n-1| <= 1e-12, operation laws to 1e-12 relative']
 REQUIRED_COUNTERS = {'element_events': 50, 'op_events': 200, 'receiver_identity_checks': 20,
-                     'shadow_steps': 200}
+                     'shadow_steps': 200, 'receiver_reevaluations': 20}
 CASE_TIMEOUT = {'quick': 120, 'thorough': 300}
 
 
@@ -253,6 +253,16 @@ def run_net(case, ctx):
         for o in ops:
             check_op(ctx, o, 'net')
         check_receiver(ctx, p[-1], f'receiver {p[-1].uid}')
+        # the mode search re-evaluates one propagation with the Tx OSNR of several modes: the figures must stay
+        # consistent however often the receiver (or the transmitter end) is re-evaluated
+        for k in range(rng.randint(1, 3)):
+            added = [rng.choice([None, round(rng.uniform(25, 45), 1)]) for _ in range(rng.randint(1, 3))]
+            if all(a is None for a in added):
+                added[0] = 35.0
+            for t in (p[-1], p[0]):
+                t.update_snr(*added)
+                ctx.count('receiver_reevaluations')
+                check_receiver(ctx, t, f'{t.uid} re-evaluated ({k + 2}. time) with added OSNR {added}')
         ctx.cls(f'net:{case["flavour"]}', f'amps:{min(n_amp, 5)}', f'nli:{scen["nli_method"]}',
                 f'raman:{scen["raman"]}')
         if n_amp >= 1 and n_fib >= 1 and si.number_of_channels >= 2:
